@@ -204,7 +204,7 @@ func c12check(p *Prog, r *Report) {
 				fv, base := fieldOf(lk.X)
 				// membership must be decided on the full public key that the signature is then
 				// verified against (a 32-bit peer ID can be collided by a stranger's key)
-				return fv != nil && fv.Name() == "ByPubKey" && depOnParamType(base, "PeerSet") && depOnCall(lk.Index, fullKeyIdent)
+				return fv != nil && refName(fv) == "ByPubKey" && depOnParamType(base, "PeerSet") && depOnCall(lk.Index, fullKeyIdent)
 			}, 1)
 			qVerify := p.lift(func(l Lit) bool {
 				return resultLit(l, named(HG+".Block.Verify"), 0, true, block)
@@ -287,7 +287,7 @@ func c12mapCounter(p *Prog, r *Report, fn *ssa.Function, mk *ssa.MakeMap, block,
 					return false
 				}
 				fv, base := fieldOf(lk.X)
-				return fv != nil && fv.Name() == "ByPubKey" && depOnParamType(base, "PeerSet") && depOnCall(lk.Index, fullKeyIdent)
+				return fv != nil && refName(fv) == "ByPubKey" && depOnParamType(base, "PeerSet") && depOnCall(lk.Index, fullKeyIdent)
 			}, 1)
 			qVerify := p.lift(func(l Lit) bool { return resultLit(l, named(HG+".Block.Verify"), 0, true, block) }, 1)
 			ok1, _ := p.allPaths(mu, []Pred{qMember}, all(1))
@@ -339,7 +339,7 @@ func c14known(p *Prog, r *Report) {
 	trusted := func(v ssa.Value) bool {
 		return dependsOn(v, func(x ssa.Value) bool {
 			if fv, _ := fieldOf(x); fv != nil && fv.Pkg() != nil && strings.HasSuffix(fv.Pkg().Path(), "/node") {
-				switch fv.Name() {
+				switch refName(fv) {
 				case "validators", "peers", "genesisPeers":
 					return true
 				}
